@@ -43,4 +43,20 @@ Definition ok (c : cfg) (l : log) : bool :=
   forallb (fun e1 => forallb (fun e2 =>
      if Qle_bool (fst (fst e1)) (fst (fst e2))
      then window_ok c l (snd (fst e1)) (fst (fst e1)) (fst (fst e2)) else true) l) l.
+
+(* "a request is refused only when the address's allowance is exhausted": per address, the decisions are exactly those of
+   one ideal bucket that starts full at the address's first request and is never evicted *)
+Fixpoint bools_eqb (a b : list bool) : bool :=
+  match a, b with
+  | [], [] => true
+  | x :: a', y :: b' => Bool.eqb x y && bools_eqb a' b'
+  | _, _ => false
+  end.
+Definition ideal_ok (c : cfg) (l : log) : bool :=
+  forallb (fun ip =>
+     let d := decisions_of ip l in
+     match map (fun e => fst (fst e)) d with
+     | [] => true
+     | t0 :: ts => bools_eqb (map snd d) (ideal c {| tokens := cap c; last := t0 |} (t0 :: ts))
+     end) (map (fun e => snd (fst e)) l).
 Close Scope Q_scope.
